@@ -109,6 +109,10 @@ def case(op, lvl, args, p, r="n", **kw):
     return {"op": op, "lvl": lvl, "args": list(args), "p": int(p), "r": r, "kw": kw}
 
 
+class CaseTimeout(Exception):
+    pass
+
+
 class Runner:
     """Executes cases against the implementation under /repo."""
 
@@ -118,6 +122,25 @@ class Runner:
         self.libmp = mpmath.libmp
 
     def run(self, c):
+        # a library call that does not return (a change that makes a loop endless) must end the case, not hang the check:
+        # two minutes for one arithmetic operation is three to six orders of magnitude above normal
+        import signal, threading
+        timed = threading.current_thread() is threading.main_thread()
+        if timed:
+            def fire(signum, frame):
+                raise CaseTimeout("operation did not return within 120 s")
+            old = signal.signal(signal.SIGALRM, fire)
+            signal.setitimer(signal.ITIMER_REAL, 120)
+        try:
+            return self._run_guarded(c)
+        except CaseTimeout as e:
+            return e
+        finally:
+            if timed:
+                signal.setitimer(signal.ITIMER_REAL, 0)
+                signal.signal(signal.SIGALRM, old)
+
+    def _run_guarded(self, c):
         try:
             return self._run(c)
         except (ZeroDivisionError, ValueError, OverflowError, TypeError, NotImplementedError,
